@@ -211,6 +211,10 @@ type Raft struct {
 	// The timestamp representing the time of the last contact by the leader.
 	lastContact time.Time
 
+	// Indicates that the node was stopped: its log is closed and must be
+	// restored from non-volatile storage before the node runs again.
+	stopped bool
+
 	wg sync.WaitGroup
 
 	mu sync.Mutex
@@ -466,10 +470,13 @@ func (r *Raft) start(restore bool) error {
 		return nil
 	}
 
-	if restore {
+	// Stop closes the log, so a node that was stopped must restore its state
+	// even if it is started with Start rather than Restart.
+	if restore || r.stopped {
 		if err := r.restore(); err != nil {
 			return fmt.Errorf("could not restore state: %w", err)
 		}
+		r.stopped = false
 	}
 
 	if r.configuration == nil {
@@ -541,6 +548,9 @@ func (r *Raft) Stop() {
 	if err := r.log.Close(); err != nil {
 		r.logger.Errorf("failed to close log: %v", err)
 	}
+	r.mu.Lock()
+	r.stopped = true
+	r.mu.Unlock()
 
 	// Close or discard of any snapshot files.
 	r.resetSnapshotFiles()
